@@ -245,8 +245,7 @@ Proof.
   split; [lia|]. split.
   - rewrite Forall_forall. intros fs Hin. apply In_nth with (d := zeros256) in Hin.
     destruct Hin as [n [Hlt Hfs]]. subst fs. destruct (Hrow n ltac:(lia)) as [H1 [H2 _]].
-    split; [exact H1|]. rewrite Forall_forall. intros g Hg. apply In_nth with (d := 0) in Hg.
-    destruct Hg as [j [_ Hj]]. pose proof (nth_le_sumN (nth n F1 zeros256) j). lia.
+    split; [exact H1|exact H2].
   - intros i Hi. unfold entry, row. destruct (Hrow (N.to_nat i) ltac:(lia)) as [H1 [H2 H3]].
     split; [exact H1|]. split; [exact H2|]. intros j. apply H3.
 Qed.
